@@ -26,6 +26,9 @@ MOD = "props.c20"
 # alphabet for the pair/triple (collision) obligations: one or two representatives of every character class the
 # sanitizers distinguish (lower, upper, digit, underscore, separators, symbol, non-ASCII letter, non-ASCII digit-like)
 PAIR_ALPHA = ranges_of_pts([ord(c) for c in "abAB12_- .{$é²"])
+# alphabet for the suffix-collision obligations (a longer name that already looks like a de-collision result: a_2, A_1)
+SUFFIX_ALPHA = ranges_of_pts([ord(c) for c in "aA12_-"])
+ALPHAS = {"pair": ("abAB12_- .{$é²", PAIR_ALPHA), "suffix": ("aA12_-", SUFFIX_ALPHA)}
 
 
 def _I():
@@ -280,17 +283,17 @@ def all_distinct(names):
 class Multi(Obligation):
     """k distinct spec names in one namespace: every one keeps a distinct valid identifier; none dropped/merged."""
 
-    def __init__(self, kname, lens):
+    def __init__(self, kname, lens, alpha="pair"):
         self.kname, self.lens = kname, tuple(lens)
         self.kernel, self.functions = MULTI[kname]
-        self.name = "distinct/%s/lens=%s" % (kname, "x".join(map(str, lens)))
-        self.alphabet = PAIR_ALPHA
-        self.bounds = {"string_lengths": list(lens), "alphabet": "abAB12_- .{$é²"}
+        self.name = "distinct/%s/lens=%s%s" % (kname, "x".join(map(str, lens)), "" if alpha == "pair" else "/" + alpha)
+        self.alpha_text, self.alphabet = ALPHAS[alpha]
+        self.bounds = {"string_lengths": list(lens), "alphabet": self.alpha_text}
 
     def make_inputs(self, e):
         inp = {}
         for i, n in enumerate(self.lens):
-            inp["s%d" % i] = mk_sym_str(n, "s%d" % i, PAIR_ALPHA)
+            inp["s%d" % i] = mk_sym_str(n, "s%d" % i, self.alphabet)
         names = list(inp.values())
         # precondition: the spec names are pairwise distinct (a JSON object cannot repeat a key)
         for i in range(len(names)):
@@ -357,8 +360,8 @@ def mk_single(kname, n):
     return Single(kname, n)
 
 
-def mk_multi(kname, lens):
-    return Multi(kname, lens)
+def mk_multi(kname, lens, alpha="pair"):
+    return Multi(kname, lens, alpha)
 
 
 def specs(tier):
@@ -383,6 +386,13 @@ def specs(tier):
             out.append((MOD, "mk_multi", (k, (1, 1, 1))))
             if k == "operation_methods":
                 out.append((MOD, "mk_multi", (k, (2, 1, 1))))
+        # a name that already looks like a de-collision result (a_2) next to two names that collide
+        if tier == "quick":
+            suffix_lens = [(3, 1, 1), (1, 1, 3)] if k in ("enum_members", "operation_methods") else [(3, 1, 1)]
+        else:
+            suffix_lens = [(3, 1, 1), (1, 3, 1), (1, 1, 3), (3, 2, 1), (3, 1, 2), (4, 1, 1), (1, 1, 4)]
+        for lens in suffix_lens:
+            out.append((MOD, "mk_multi", (k, lens, "suffix")))
     return out
 
 
@@ -419,7 +429,7 @@ def replay(path):
         print("replay %s(%r) -> %r valid=%s" % (kname, v["inputs"]["s"], r, ok))
     else:
         args = [v["inputs"][k] for k in sorted(v["inputs"])]
-        ob = Multi(kname, [len(a) for a in args])
+        ob = Multi(kname, [len(a) for a in args], "suffix" if name.endswith("/suffix") else "pair")
         r = call_catching(MULTI[kname][0], P, *args)
         ok = bool(ob.prop({("s%d" % i): a for i, a in enumerate(args)}, r))
         print("replay %s%r -> %r holds=%s" % (kname, tuple(args), r, ok))
